@@ -37,6 +37,10 @@ MUTANTS = [
     ("C05", "seeded C05h-2: seeded record overwritten by a nested call", "@patch", "/verif/seeded/C05h-2/patch.diff", None),
     ("C05", "seeded C05i-1: Jacobian rows shift up after a constant output", "@patch", "/verif/seeded/C05i-1/patch.diff", None),
     ("C05", "seeded C05i-2: symmetrised Hessian overflows above MAX/2", "@patch", "/verif/seeded/C05i-2/patch.diff", None),
+    # ---- state shared between threads: found by the process-isolated search ------------------------------------------
+    ("C18", "scratch buffer behind a global Mutex left dirty by a failed rendering", "@patch", "/verif/tools/mutants18/g1_global_scratch_buffer.diff", None),
+    ("C05", "depth counter in a global atomic left set by a failing closure", "@patch", "/verif/tools/mutants05/g1_global_depth_counter.diff", None),
+    ("C16", "flag in a global atomic left set by a failed deserialization", "@patch", "/verif/tools/mutants16/g1_global_flag.diff", None),
     # ---- C16: stored form (fault-free), and errors of the data format swallowed (only under a fault at the seam) ------
     ("C16", "Dual: result of one serialize_field ignored (hand-written Serialize)", "@patch", "/verif/tools/mutants16/m1_ser_field_error_ignored.diff", None),
     ("C16", "Dual2: real part stored under another name", "@patch", "/verif/tools/mutants16/m2_field_renamed.diff", None),
